@@ -209,12 +209,14 @@ pub fn check_pos(ctx: &mut Ctx, mp: &MPos, b: &Board) {
     }
     // short pawn captures for every adjacent file pair, with and without promotion
     for f in 0..8u8 {
-        for g in [f.wrapping_sub(1), f + 1] {
-            if g < 8 {
+        for g in 0..8u8 {
+            if g != f {
                 let s = format!("{}{}", (b'a' + f) as char, (b'a' + g) as char);
                 variants.push(s.clone());
-                variants.push(format!("{}=Q", s));
-                variants.push(format!("{}N", s));
+                if g + 1 == f || f + 1 == g || ctx.cases % 4 == 0 {
+                    variants.push(format!("{}=Q", s));
+                    variants.push(format!("{}N", s));
+                }
             }
         }
     }
@@ -237,6 +239,9 @@ pub fn check_pos(ctx: &mut Ctx, mp: &MPos, b: &Board) {
     }
     variants.sort();
     variants.dedup();
+    if ctx.light() {
+        variants.truncate(40);
+    }
     for t in &variants {
         check_text(ctx, &case, &legal, b, t);
     }
